@@ -50,8 +50,24 @@ pub fn parse_uint(i: &[u8]) -> nom::IResult<&[u8], u64> {
     Ok((i, i.iter().fold(0, |res, &byte| (res << 8) | byte as u64)))
 }
 
+/// Maximum nesting depth of constructed values accepted by the parser.
+///
+/// The parser is recursive; without a bound, a few kilobytes of nested
+/// headers sent by a peer would overflow the stack.
+pub const MAX_NESTING: usize = 100;
+
 /// Parse raw BER data into a serializable structure.
 pub fn parse_tag(i: &[u8]) -> nom::IResult<&[u8], StructureTag> {
+    parse_tag_nested(i, 0)
+}
+
+fn parse_tag_nested(i: &[u8], depth: usize) -> nom::IResult<&[u8], StructureTag> {
+    if depth > MAX_NESTING {
+        return Err(nom::Err::Failure(Error::from_error_kind(
+            i,
+            ErrorKind::TooLarge,
+        )));
+    }
     let (mut i, ((class, structure, id), len)) = tuple((parse_type_header, parse_length))(i)?;
 
     let pl: PL = match structure {
@@ -67,7 +83,17 @@ pub fn parse_tag(i: &[u8]) -> nom::IResult<&[u8], StructureTag> {
 
             let mut tv: Vec<StructureTag> = Vec::new();
             while content.input_len() > 0 {
-                let (j, sub) = parse_tag(content)?;
+                // The content is all there is: an element running past its end
+                // is malformed, more input can't complete it.
+                let (j, sub) = match parse_tag_nested(content, depth + 1) {
+                    Err(nom::Err::Incomplete(_)) => {
+                        return Err(nom::Err::Failure(Error::from_error_kind(
+                            content,
+                            ErrorKind::Eof,
+                        )))
+                    }
+                    res => res?,
+                };
                 content = j;
                 tv.push(sub);
             }
